@@ -2,7 +2,7 @@
    Same statements as C07/FileProps.v (kept textually identical below the imports). *)
 From Coq Require Import List ZArith NArith Bool.
 From BLB Require Import C07.FileFS C07.FileModel C07.FileProofsState C07.FileProofsSnapA C07.FileProofsSnapB
-     C07.FileProofsSnapC C07.FileProofsRet.
+     C07.FileProofsSnapC C07.FileProofsRet C07.FileProofsState2.
 Import ListNotations.
 
 (* [FULL] every state reachable under the crash quantifier of the property (all mutations before the crash point applied, the write in flight cut anywhere) is a power loss state (crash_cache) of some prefix of the trace, so theorems over crash_cache are the strong form *)
@@ -35,6 +35,28 @@ Theorem state_file_first_start :
     (r = length (state_to_file (fresh_state g) L) -> open_state c = OpenOk (fresh_state g)).
 Proof. exact state_file_first_start_lemma. Qed.
 Print Assumptions state_file_first_start.
+
+(* [FULL] closure under repeated crashes. Under the hypotheses of state_file_atomic, the directory a restarted process finds after any crash state c (all of it durable by definition) is again a quiescent directory holding the old or the new state, with or without a left over raft_state.tmp of arbitrary content. Hence state_file_atomic applies again and left over temporary files are harmless after any number of crashes *)
+Theorem state_recovery_closed :
+  forall s0 old0 ops1 o L r c,
+    stable s0 (Some old0) ->
+    let st_old := sfold old0 ops1 in
+    let st_new := sop_apply o st_old in
+    r <= length (state_to_file st_new L) ->
+    crash_cache (run (strace old0 ops1 ++ firstn r (state_to_file st_new L)) s0) c ->
+    exists nx, stable (recover c nx) (Some st_old) \/ stable (recover c nx) (Some st_new).
+Proof. exact state_recovery_closed_lemma. Qed.
+Print Assumptions state_recovery_closed.
+
+(* [FULL] the same for a crash during the very first start. The restarted process finds a quiescent directory without state file or with exactly the initial state *)
+Theorem state_recovery_first_start :
+  forall s0 g L r c,
+    stable s0 None ->
+    r <= length (state_to_file (fresh_state g) L) ->
+    crash_cache (run (firstn r (state_to_file (fresh_state g) L)) s0) c ->
+    exists nx, stable (recover c nx) None \/ stable (recover c nx) (Some (fresh_state g)).
+Proof. exact state_recovery_first_start_lemma. Qed.
+Print Assumptions state_recovery_first_start.
 
 (* [FULL] snapshot visibility over crash_cache. For every sequence ops1 of completed manager operations from the empty directory (Begin, Write, Commit, Abort, restart, with any oracle orders and lengths), every next operation o, every crash point r inside o and every power loss state c. First, whatever carries a valid snapshot name holds exactly the complete content of a snapshot whose Commit was started. Second, NewFSSnapshotMgr never dies. Third, it selects the newest name present, that snapshot is complete, and it is at least as new as every acknowledged snapshot. After o has returned the same holds with the snapshot committed by o counted as acknowledged *)
 Theorem snapshot_visible_iff_complete :
